@@ -1,4 +1,20 @@
-"""C09 -- GET_DESCRIPTOR returns exactly the requested descriptor bytes."""
+"""C09 -- GET_DESCRIPTOR returns exactly the requested descriptor bytes.
+
+How the obligations are decided (RULES_HOWTO rule 9):
+ (A) structure: guards, drivers, edges, priorities (state_outcomes), widths/ranges, constructor arguments, and the AST of the
+     elaboration-time ROM writer `generate_rom_content` reduced to linear forms over its loop variables (by role);
+ (B) one-cycle evaluation of the extracted expressions of a state over ALL valuations of the registers/inputs they read
+     (all 65536 wValue, all 65536 remainders, all positions of the position register, all counts/pointers of a table entry),
+     with the ROM word on the read port built from the writer's own struct formats;
+ (C) where a decision spans two consecutive states (index remap register -> count comparison; length/base registers ->
+     send state) the register values computed by the first state's assignments are handed to the second: a composition of
+     exhaustive per-state tables, not a run on chosen stimuli.
+Descriptor collections are elaboration-time configuration, like the packet size: three fixed collections (dense, sparse
+indices, large/empty/type 0 and 15) are swept; nothing here depends on request histories.
+
+Known genuine defect (F16): ConstantStreamGenerator.start_position is Signal(range(data_length)); see the two
+C09.offset-lossless obligations and /tmp/w_C09/witness.py (PYTHONPATH=<tree> /venv/bin/python /tmp/w_C09/witness.py).
+"""
 import ast
 import struct
 
@@ -52,16 +68,28 @@ def _mask(w):
     return (1 << w) - 1
 
 
+_DRV = {}
+
+
+def drivers_of(ir, name):
+    """ir.drivers(name, exact=True) in program order, cached (the truth tables below ask millions of times)."""
+    k = (id(ir), name)
+    if k not in _DRV:
+        _DRV[k] = (ir, sorted(ir.drivers(name, exact=True), key=lambda x: x.order))
+    return _DRV[k][1]
+
+
 class Ev:
     """Evaluates extracted expressions for one valuation of the signals they read (one cycle, no state)."""
 
     def __init__(self, ir, env, state=None):
         self.ir, self.env, self.state = ir, dict(env), state
+        self.memo = {}          # guard literals are shared between the arms of a Switch: evaluate each once
 
     def sig(self, name):
         if name in self.env:
             return self.env[name]
-        ds = self.ir.drivers(name, exact=True)
+        ds = drivers_of(self.ir, name)
         if ds and all(a.domain == 'comb' for a in ds):
             v = self.drive(name, 0)
             self.env[name] = v
@@ -126,7 +154,11 @@ class Ev:
         for l in item.guard:
             if l.kind == 'cfg':
                 raise AnalysisError('configuration atom in a guard that must be evaluated: %s' % l.canon())
-            if bool(self.ev(l.e)) != l.pos:
+            k = id(l.e)
+            v = self.memo.get(k)
+            if v is None:
+                v = self.memo[k] = bool(self.ev(l.e))
+            if v != l.pos:
                 return False
         return True
 
@@ -136,7 +168,7 @@ class Ev:
     def drive(self, name, default=None, domain=None):
         """Value driven onto `name` this cycle (last active assignment wins); `default` when nothing drives it."""
         val = default
-        for a in sorted(self.ir.drivers(name, exact=True), key=lambda x: x.order):
+        for a in drivers_of(self.ir, name):
             if domain is not None and (a.domain == 'comb') != (domain == 'comb'):
                 continue
             if a.lhs.op != 'sig':
@@ -147,7 +179,10 @@ class Ev:
 
     def next_state(self, fsm):
         dst = self.state
-        for e in sorted(fsm.out_edges(self.state), key=lambda x: x.order):
+        k = (id(fsm), self.state)
+        if k not in _DRV:
+            _DRV[k] = (fsm, sorted(fsm.out_edges(self.state), key=lambda x: x.order))
+        for e in _DRV[k][1]:
             if self.holds(e):
                 dst = e.dst
         return dst
@@ -484,8 +519,11 @@ def p_eval(p, vals):
 def step_regs(ev, ir):
     """Next values of all registers that have an active clocked assignment this cycle."""
     out = {}
-    for a in sorted(ir.assigns, key=lambda x: x.order):
-        if a.domain != 'comb' and a.lhs.op == 'sig' and ev.active(a):
+    k = (id(ir), '$clocked')
+    if k not in _DRV:
+        _DRV[k] = (ir, sorted((a for a in ir.assigns if a.domain != 'comb' and a.lhs.op == 'sig'), key=lambda x: x.order))
+    for a in _DRV[k][1]:
+        if ev.active(a):
             out[a.lhs.args[0].name] = ev.ev(a.rhs)
     return out
 
@@ -537,14 +575,14 @@ def block(ctx, W, mps, cname, full):
     ctx.need(len(ds_) == 1, C + ': the descriptor-lookup state')
     S_desc = ds_.pop()
     ctx.need(len({init, S_start, S_type, S_desc, S_send, S_zlp}) == 6 == len(fsm.states), C + ': six distinct states')
-    posl = [a for a in ir.assigns if a.domain != 'comb' and a.rhs.canon() == 'self.start_position']
-    ctx.need(len(posl) == 1 and posl[0].lhs.op == 'sig', C + ': the position register (loaded from start_position)')
-    POS = posl[0].lhs.args[0].name
-    ctx.ob('C09.position-load', C + '.position' + tag, q.state_of(posl[0]) == S_start and not posl[0].guard, posl[0].loc,
-           'the stream position is loaded from start_position, unconditionally, in the state entered by start: %s' % q.fmt(posl[0]))
-    dsig = pay[0].rhs.sigs() - {POS}
-    ctx.need(len(dsig) == 1, C + ': ROM read data signal')
-    DATA = dsig.pop()
+    clocked = {a.lhs.args[0].name for a in ir.assigns if a.domain != 'comb' and a.lhs.op == 'sig'}
+    psig = pay[0].rhs.sigs()
+    ctx.need(len(psig & clocked) == 1 and len(psig - clocked) == 1, C + ': payload = byte of the ROM read data selected by the position register')
+    POS, DATA = (psig & clocked).pop(), (psig - clocked).pop()
+    posl = [a for a in ir.drivers(POS, exact=True) if q.state_of(a) == S_start]
+    ctx.ob('C09.position-load', C + '.position' + tag, len(posl) == 1 and not posl[0].guard and posl[0].rhs.canon() == 'self.start_position',
+           posl[0].loc if posl else fsm.state_loc[S_start],
+           'the stream position is loaded from start_position, unconditionally, in the state entered by start: %s' % [q.fmt(a)[:160] for a in posl])
     ADDR = DATA.rsplit('.', 1)[0] + '.addr'
     ctx.need(ir.drivers(ADDR, exact=True), C + ': ROM read address drivers')
     depth = [s.obj.kwargs.get('depth') for s in ir.submodules if s.name == 'rom']
@@ -635,17 +673,17 @@ def block(ctx, W, mps, cname, full):
     env = dict(base_env)
     e0 = Ev(ir, dict(env, **{'self.value': sorted(bytype)[0] << 8}), S_start)
     idxregs = step_regs(e0, ir)
-    for c in range(0, 65536, 1 if full else 251):
+    for c in range(0, 65536, 1 if ctx.tier == 'thorough' else 251):
         for d in (0, 1, 2, 254, 255):
             en = dict(env, **{'self.value': d})
-            en.update({k: d for k in idxregs if k != POS})
+            en.update({k: d for k in idxregs if k not in (POS, L)})
             en[DATA] = word(W, W.tfmt, c, 0x40)
             e2 = Ev(ir, en, S_type)
             if bool(e2.drive('self.stall', 0)) != (d >= c) and bad_c is None:
                 bad_c = (c, d)
     for p in range(0, 1 << 16, W.es):
         en = dict(env, **{'self.value': 3})
-        en.update({k: 3 for k in idxregs if k != POS})
+        en.update({k: 3 for k in idxregs if k not in (POS, L)})
         en[DATA] = word(W, W.tfmt, 9, p)
         e2 = Ev(ir, en, S_type)
         if (e2.drive(ADDR, 0) & _mask(AW)) != ((p // W.es + 3) & _mask(AW)) and bad_p is None:
@@ -660,40 +698,39 @@ def block(ctx, W, mps, cname, full):
     ptrs = [W.es * k for k in (0, 1, 2, 5, 63, (1 << AW) - 1)]
     rawb = bytes(range(0x41, 0x41 + W.es))
     rw = struct.unpack(W.wfmt, rawb)[0]
-    for dl in lens:
-        for p in ptrs:
-            for pos in range(1 << posw):
-                en = dict(base_env)
-                en.update({POS: pos, DATA: word(W, W.ifmt, dl, p), 'self.start_position': 0})
-                e3 = Ev(ir, en, S_desc)
-                n3 = e3.next_state(fsm)
-                if n3 != (S_zlp if pos >= dl else S_send) and bad_z is None:
-                    bad_z = (dl, pos, n3)
-                if pos >= dl:
-                    continue
-                a3 = e3.drive(ADDR, 0) & _mask(AW)
-                if a3 != ((p + pos) // W.es) & _mask(AW) and bad_b is None:
-                    bad_b = ('lookup', dl, p, pos, a3)
-                if e3.drive('self.tx.valid', 0) or e3.drive('self.stall', 0):
-                    bad_b = bad_b or ('lookup drives tx.valid/stall', dl, p, pos)
-                en.update(step_regs(e3, ir))
-                en[DATA] = rw
-                for rdy, sent, ln in ((0, 0, 5), (1, 0, 5), (1, 0, 1), (1, 3, 4)):
-                    en.update({'self.tx.ready': rdy, L: ln})
-                    en[SENT] = sent
-                    e4 = Ev(ir, en, S_send)
-                    last = (pos == dl - 1) or (sent + 1 >= ln)
-                    adv = rdy and not last
-                    a4 = e4.drive(ADDR, 0) & _mask(AW)
-                    if a4 != ((p // W.es) + (pos + (1 if adv else 0)) // W.es) & _mask(AW) and bad_b is None:
-                        bad_b = ('send ready=%d last=%d' % (rdy, last), dl, p, pos, a4)
-                    if bool(e4.drive('self.tx.last', 0)) != last and bad_l is None:
-                        bad_l = (dl, pos, sent, ln)
-                    if e4.drive('self.tx.payload', 0) != rawb[pos % W.es] and bad_lane is None:
-                        bad_lane = (pos, e4.drive('self.tx.payload', 0))
-                    e5 = Ev(ir, dict(en, **{'self.start_position': pos}), S_send)
-                    if not e5.drive('self.tx.first', 0) and bad_first is None:
-                        bad_first = (pos, pos)
+    # every (length, position) with one pointer; every (pointer, position) with the longest descriptor
+    combos = [(dl, ptrs[2], pos) for dl in lens for pos in range(1 << posw)] + \
+             [(maxlen, p, pos) for p in ptrs for pos in range(maxlen) if p != ptrs[2]]
+    for dl, p, pos in combos:
+        en = dict(base_env)
+        en.update({POS: pos, DATA: word(W, W.ifmt, dl, p), 'self.start_position': 0})
+        e3 = Ev(ir, en, S_desc)
+        n3 = e3.next_state(fsm)
+        if n3 != (S_zlp if pos >= dl else S_send) and bad_z is None:
+            bad_z = (dl, pos, n3)
+        if pos >= dl:
+            continue
+        a3 = e3.drive(ADDR, 0) & _mask(AW)
+        if a3 != ((p + pos) // W.es) & _mask(AW) and bad_b is None:
+            bad_b = ('lookup', dl, p, pos, a3)
+        if e3.drive('self.tx.valid', 0) or e3.drive('self.stall', 0):
+            bad_b = bad_b or ('lookup drives tx.valid/stall', dl, p, pos)
+        en.update(step_regs(e3, ir))
+        en[DATA] = rw
+        for rdy, sent, ln in ((0, 0, 5), (1, 0, 5), (1, 0, 1), (1, 3, 4)):
+            en.update({'self.tx.ready': rdy, L: ln, SENT: sent, 'self.start_position': pos})
+            e4 = Ev(ir, en, S_send)
+            last = (pos == dl - 1) or (sent + 1 >= ln)
+            adv = rdy and not last
+            a4 = e4.drive(ADDR, 0) & _mask(AW)
+            if a4 != ((p // W.es) + (pos + (1 if adv else 0)) // W.es) & _mask(AW) and bad_b is None:
+                bad_b = ('send ready=%d last=%d' % (rdy, last), dl, p, pos, a4)
+            if bool(e4.drive('self.tx.last', 0)) != last and bad_l is None:
+                bad_l = (dl, pos, sent, ln)
+            if e4.drive('self.tx.payload', 0) != rawb[pos % W.es] and bad_lane is None:
+                bad_lane = (pos, e4.drive('self.tx.payload', 0))
+            if not e4.drive('self.tx.first', 0) and bad_first is None:
+                bad_first = (pos, pos)
     ctx.ob('C09.zlp-path', C + '.offset-at-end' + tag, bad_z is None, fsm.state_loc[S_desc],
            'with the writer\'s (length, pointer) entry on the read port: position >= length -> ZLP state, else send state; (length, position, next) = %s' % (bad_z,))
     ctx.ob('C09.rom-layout', C + '.data.address' + tag, bad_b is None, fsm.state_loc[S_send],
@@ -1047,8 +1084,8 @@ def run(ctx):
     if thorough:
         cfgs = [(m, 'dense') for m in MPS] + [(64, 'sparse'), (8, 'sparse'), (16, 'big'), (32, 'big')]
     for m, c in cfgs:
-        block(ctx, W, m, c, thorough)
-        distributed(ctx, m, c, thorough)
+        block(ctx, W, m, c, True)            # all 65536 wValue in both tiers
+        distributed(ctx, m, c, True)
     lens = [8, 18, 64] + ([n for n in range(1, 131) if n not in (8, 18, 64)] + [192, 255, 256, 300, 512] if thorough else [1, 9, 16, 24, 32, 100, 128])
     generator(ctx, lens)
     mux(ctx)
